@@ -580,6 +580,14 @@ func checkC14(c *Ctx) {
 						if !hasLFNeighbour {
 							// the CR half of a CRLF pair, looked for inside the body of an if that established the LF
 							for n := s.parents[leaf.node]; n != nil && !hasLFNeighbour; n = s.parents[n] {
+								if cc, isCase := n.(*ast.CaseClause); isCase {
+									for _, e := range cc.List {
+										if v, ok := s.charConst(e); ok && v == '\n' {
+											hasLFNeighbour = true
+										}
+									}
+									continue
+								}
 								x, ok := n.(*ast.IfStmt)
 								if !ok {
 									continue
